@@ -2,7 +2,7 @@
 clauses (atomic opstamps, join before commit, commit task dataflow, batch unit)."""
 from ..model import (Ev, must_precede, must_pass, trace_through, trace_back, op_local, op_place, place_local, is_bare, provenance, proj_fields)
 from ..rules import (rule_precede, rule_must_pass, rule_result_checked, get_body, calls_to, site, short, rule_who_may_call,
-                     option_root, guard_live_at, locals_of_type, return_defs, rule_after_loop)
+                     option_root, guard_live_at, locals_of_type, return_defs, rule_after_loop, rule_loop_exhausted)
 
 I = "tantivy::indexer::"
 SU = I + "segment_updater::"
@@ -22,6 +22,8 @@ def run(rep, prog, tier):
     r4(rep, prog)
     from .c04 import r5 as merge_targets
     merge_targets(rep, prog, "C02-R5")
+    rep.rule("C02-R6", "an accepted batch is indexed completely: in index_documents the loop over one document group (the adds of one IndexWriter::run batch, already stamped and acknowledged) is left only when its iterator is exhausted or with an error; a `break` out of it on an Ok path drops acknowledged adds")
+    rule_loop_exhausted(rep, prog, "C02-R6", I + "index_writer::index_documents", {I + "segment_writer::SegmentWriter::add_document"}, "the documents of one group")
 
 
 def r1(rep, prog):
